@@ -80,7 +80,7 @@ def istft(z, /, window="boxcar", nperseg=256, noverlap=0, nfft=None):
 
     new_shape = (len(z), -1, nfft) + z.sample_shape[1:]
     x = z.data.reshape(new_shape)
-    x *= nperseg
+    x = x * nperseg
 
     x = x.swapaxes(1, 2)
     x = np.fft.ifftshift(x, axes=(1,))
